@@ -9,8 +9,17 @@ MANIFEST = {
             "conservation, convexity and the agreement of the twin algorithms as invariants over the exhaustively "
             "enumerated bounded input space (all permutations up to length 4/5 with all index tuples, ranges and "
             "insertion points, identity/reversal up to 5/7, all parent pairs over two-letter alphabets up to length "
-            "3/4 with all cut tuples and masks, all permutation pairs up to 4/5). Every enumerated case is replayed on "
-            "the real function and TLC validates the recorded reply against the oracle value. The arithmetic crossover "
+            "3/4 with all cut tuples and masks, all permutation pairs up to 4/5). Parents of UNEQUAL length, which "
+            "the multi-point, uniform and arithmetic helpers accept, are enumerated in both orders (second parent of "
+            "every other length up to 4/5, position-labelled parents of length 5/6 against mates of length n-2..n+1; "
+            "all cut tuples inside the shorter parent in every order, all masks, all alphas): uniform and arithmetic "
+            "crossover have exact oracles there too (positions both parents have are swapped / interpolated, the "
+            "others kept), a multi-point crossover of unequal parents is judged by the relation C13 states (the "
+            "children have the parents' lengths, every position inside the shorter parent holds the two parental genes, "
+            "one in each child, every position beyond it the longer parent's gene), and TLC checks that a "
+            "transcription of the helper's algorithm satisfies that relation and that replies with a lost / duplicated "
+            "tail, gene or length are rejected. Every enumerated case is replayed on "
+            "the real function and TLC validates the recorded reply against the oracle value / relation. The arithmetic crossover "
             "is additionally called on every pair of 21 extreme / far-apart finite genes (+-f64::MAX, +-1e308, 1e17 "
             "next to 0.1, +-f64::MIN_POSITIVE, 0) with 9 alphas from exactly 0 to exactly 1 (and on random vectors of "
             "them): genes reach the spec as ranks, child genes as position classes, and TLC requires every child gene "
@@ -18,7 +27,20 @@ MANIFEST = {
             "the parental gene the alpha selects at alpha = 0 and alpha = 1. The 17 mutation / recombination components "
             "are specified as relations between the populations before and after; TLC checks on a constructive model "
             "that the relation accepts every ideal behaviour, rejects corrupted ones and implies the clauses of C13, "
-            "and validates seeded random executions of every component through the public Component API. A case "
+            "and validates seeded random executions of every component through the public Component API. The "
+            "populations of the four pairing crossovers (n-point, uniform, cycle, arithmetic) contain DUPLICATES - "
+            "identical adjacent parents, copies across pairs, converged populations: every partition pattern of up to "
+            "3/4 individuals in the model, seeded patterns of 2..6 individuals on the code - with insert-single and "
+            "insert-both and pc = 0 / inside / 1 (each combination is required to occur): offspring counts must follow "
+            "pc and insert_both whatever the parents look like (pc = 1 and insert-single: exactly one child per pair), "
+            "the n-point structure is demanded through an explaining cut set where the parents share genes, and with "
+            "insert-both the genes of every position and the individual lengths are conserved as multisets. The "
+            "n-point crossover, which accepts them, also runs on RAGGED populations (pairs of parents of unequal "
+            "length in both orders, with duplicates): children per pair judged by the same relation as the helper. "
+            "ArithmeticCrossover is part of the component model (individuals = tags, float predicates derived from "
+            "the provenance of each output; wrong counts, kept identical parents, children outside the hull / not "
+            "conserved are rejected). The DE crossovers run with duplicate mutants and mutants identical to their "
+            "bases (the set of positions taken from the base must then exist instead of being read off). A case "
             "records the constructor used and the arguments given to it; the spec derives the parameters the "
             "execution must obey: every public constructor of every component is modelled (table compared at run time "
             "with the harness sweep and with the pub fns in the source) and swept, the built instance must serialise "
@@ -39,10 +61,11 @@ MANIFEST = {
 }
 
 FN_INV = ("FnTotal PermutationClosure GeneConservation ArithConvex SwapMovesChosen TranslocateShape TwinSwap "
-          "TwinTranslocate MultiPointTailSwaps CycleWhole ArithXConvex ArithXEnds ArithXAccepts ArithXRejects")
-COMP_INV = ("RelAccepts RelRejects CompNoFailure CompPermutationClosure CompDimensionKept CompRateZero "
+          "TwinTranslocate MultiPointTailSwaps CycleWhole ArithXConvex ArithXEnds ArithXAccepts ArithXRejects "
+          "MultiPointUAccepts MultiPointUTwin MultiPointURejects")
+COMP_INV = ("RelAccepts RelRejects ArithRejects CompNoFailure CompPermutationClosure CompDimensionKept CompRateZero "
             "CompRateZeroReal CompOffspringCount CompDEFormat CompGenesFromParents CompDEGenes CompStackKept "
-            "CompOwnParameters CompInvalidRejected CompStrengthBound CompCtorVariant")
+            "CompOwnParameters CompInvalidRejected CompStrengthBound CompCtorVariant CompGenesConserved")
 
 FN_OPS = ["circular_swap", "circular_swap2", "translocate_slice", "translocate_slice2", "multi_point", "uniform",
           "arithmetic", "arith_x", "cycle"]
@@ -55,7 +78,10 @@ COMPS = ["NormalMutation", "UniformMutation", "PartialRandomSpread", "BitFlipMut
          "ScrambleMutation", "SwapMutation", "InversionMutation", "InsertionMutation", "TranslocationMutation",
          "NPointCrossover", "UniformCrossover", "CycleCrossover", "ArithmeticCrossover", "DEMutation",
          "DEBinomialCrossover", "DEExponentialCrossover"]
-MC_COMPS = [c for c in COMPS if c not in ("ArithmeticCrossover", "DEMutation")]   # these two need float predicates
+MC_COMPS = [c for c in COMPS if c != "DEMutation"]   # (DEMutation: a float formula, recorded executions only)
+CROSS = ["NPointCrossover", "UniformCrossover", "CycleCrossover", "ArithmeticCrossover"]   # pairing + insert_both
+MC_CROSS = [c for c in CROSS if c in MC_COMPS]
+UNEQUAL_OPS = ["multi_point", "uniform", "arithmetic"]      # helpers that accept parents of unequal length
 
 BOUNDS = {
     "quick": dict(MaxPerm=4, ExtraLens="{5}", MaxPar=3, LabLens="{5}", MaxCyc=4, MaxArith=2,
@@ -104,19 +130,24 @@ def parse_cases(path):
     """CASE lines (helper calls with the oracle reply) and CCASE lines (component model) of the MC run."""
     cases, comp = [], collections.Counter()
     ctors, sib, adapt = collections.Counter(), collections.Counter(), collections.Counter()
+    shape = collections.Counter()       # (component, "dup" | "rag", insert_both, class of pc) of ok-executions
     with open(path) as f:
         for line in f:
             if line.startswith('<<"CASE", '):
                 cases.append(json.loads(json.loads(line.rstrip("\n")[len('<<"CASE", '):-2])))
             elif line.startswith('<<"CCASE", '):
-                m = re.match(r'<<"CCASE", "([^"]+)", "([^"]+)", (\d), "([^"]+)", (\d), (\d)>>', line)
+                m = re.match(r'<<"CCASE", "([^"]+)", "([^"]+)", (\d), "([^"]+)", (\d), (\d), (\d+), (\d+)>>', line)
                 comp[(m.group(1), m.group(2), int(m.group(3)))] += 1
                 ctors[(m.group(1), m.group(4))] += 1
                 if m.group(5) == "1":
                     sib[m.group(1)] += 1
                 if m.group(6) == "1":
                     adapt[m.group(1)] += 1
-    return cases, comp, ctors, sib, adapt
+                for what, g in (("dup", 7), ("rag", 8)):
+                    v = int(m.group(g)) - 1
+                    if v >= 0 and m.group(2) == "ok":
+                        shape[(m.group(1), what, v // 10, v % 10)] += 1
+    return cases, comp, ctors, sib, adapt, shape
 
 
 def write_scenarios(ctx, cases, name, chunk=2000):
@@ -188,11 +219,24 @@ def run(ctx):
     b = BOUNDS["quick" if q else "thorough"]
     # (A) design check + enumeration of the bounded input space (one TLC run does both)
     mc = ctx.tlc_mc("MC_Variation", cfg_mc(b), "mc", workers=2 if q else 4, timeout=2400)
-    cases, comp, mc_ctors, mc_sib, mc_adapt = parse_cases(mc["out"])
+    cases, comp, mc_ctors, mc_sib, mc_adapt, mc_shape = parse_cases(mc["out"])
     scen, by_op = write_scenarios(ctx, cases, "cases")
     missing = [o for o in FN_OPS if not by_op.get(o)]
     if missing:
         raise vlib.ToolError("vacuous model: helper never enumerated: %s" % missing)
+    # parents of unequal length, in both orders, for every helper that accepts them
+    for o in UNEQUAL_OPS:
+        longer = sum(1 for a in by_op[o] if len(a["p"]) > len(a["q"]))
+        shorter = sum(1 for a in by_op[o] if len(a["p"]) < len(a["q"]))
+        if not longer or not shorter:
+            raise vlib.ToolError("vacuous model: %s never enumerated for parents of unequal length (first longer: %d, "
+                                 "first shorter: %d)" % (o, longer, shorter))
+    # populations with identical adjacent parents for every modelled crossover, ragged ones for the n-point
+    # crossover: insert-single and insert-both, pc = 0 / inside / 1
+    missing = [(c, w, both, pr) for c in MC_CROSS for w in ("dup", "rag") for both in (0, 1) for pr in (0, 1, 2)
+               if (w == "dup" or c == "NPointCrossover") and not mc_shape[(c, w, both, pr)]]
+    if missing:
+        raise vlib.ToolError("vacuous component model: population shape never modelled: %s" % missing)
     seen_ok = {c for (c, k, ch) in comp if k == "ok" and ch == 1}
     missing = [c for c in MC_COMPS if c not in seen_ok]
     if missing:
@@ -236,8 +280,33 @@ def run(ctx):
             ids["sib_strength"][a["c"]] += 1
         if any(ad["id"] == a["id"] for ad in a["adapt"]):
             ids["adapt"][a["c"]] += 1
+    # population shapes of the crossovers: an identical adjacent pair of parents (pin rows are tags / labels, so
+    # equal rows = bit-identical parents), a pair of parents of unequal length (in both orders)
+    shapes = collections.Counter()
+    for r in comps:
+        a, pin = r["act"], r["act"]["pin"]
+        if a["c"] not in CROSS or r["res"]["k"] != "ok":
+            continue
+        both = {"new_insert_single": 0, "new_insert_both": 1}.get(a["ctor"], a["both"])
+        pairs = [(pin[k], pin[k + 1]) for k in range(0, len(pin) - 1, 2)]
+        if any(x == y for x, y in pairs):
+            shapes[(a["c"], "dup", both, a["pr"])] += 1
+        if any(len(x) > len(y) for x, y in pairs):
+            shapes[(a["c"], "long-short", both, a["pr"])] += 1
+        if any(len(x) < len(y) for x, y in pairs):
+            shapes[(a["c"], "short-long", both, a["pr"])] += 1
+    fns = collections.Counter((r["act"]["op"], (len(r["act"]["p"]) > len(r["act"]["q"])) - (len(r["act"]["p"]) < len(r["act"]["q"])))
+                              for r in recs if r.get("kind") == "fn")
     ctx.validate("Trace_Variation", CFG_TRACE, tr2, "random", DESCRIBE, {"driver": "variation"}, max_rejections=8)
     if not ctx.violations:
+        missing = [(c, w, both, pr) for c in CROSS for w in ("dup", "long-short", "short-long") for both in (0, 1)
+                   for pr in (0, 1, 2) if (w == "dup" or c == "NPointCrossover") and not shapes[(c, w, both, pr)]]
+        if missing:
+            raise vlib.ToolError("vacuous random run: crossover never executed on this population shape "
+                                 "(component, shape, insert_both, class of pc): %s" % missing)
+        missing = [(o, d) for o in UNEQUAL_OPS for d in (-1, 1) if not fns[(o, d)]]
+        if missing:
+            raise vlib.ToolError("vacuous random run: helper never called on parents of unequal length: %s" % missing)
         missing = [c for c in COMPS if seen[(c, "ok")] == 0]
         if missing:
             raise vlib.ToolError("vacuous random run: no ok-execution recorded for %s" % missing)
@@ -256,17 +325,28 @@ def run(ctx):
     ctx.assumptions += [
         "helper input space bounded by %s" % json.dumps(b),
         "helpers are generic in the element type: enumerated at i64, other element types are relabelings",
-        "multi-point / uniform crossover enumerated for parents of equal length (a VectorProblem has one dimension)",
+        "parents of unequal length: helpers multi_point / uniform / arithmetic in both orders; cuts inside the shorter "
+        "parent (as the component draws them), masks that are false beyond the shorter parent (a set bit there "
+        "indexes past the shorter child and panics), masks / alphas at least as long as the longer parent (contract); "
+        "which n-point crossover the helper returns for unequal parents is not documented (with cut tuples that are "
+        "not ascending it has fewer than n switch points), so only lengths and gene conservation are demanded there",
+        "components on ragged populations: NPointCrossover only - UniformCrossover / ArithmeticCrossover draw a mask / "
+        "alphas of the shorter length and are rejected by the helper contract (panic), CycleCrossover requires equal "
+        "lengths; the documentation of VectorProblem (one dimension = length of every solution) does not make such "
+        "populations valid, so nothing is claimed for them",
+        "duplicates: copy patterns = identical adjacent pairs / converged / selection with replacement from n/2 "
+        "individuals, populations of 2..6; position-labelled genes, permutations, real vectors (box and extreme values)",
         "arithmetic crossover on extreme genes: all pairs of the %d table values (+-f64::MAX ... +-f64::MIN_POSITIVE, "
         "0) x 9 alphas (0, 2^-60, .., 1-2^-53, 1) enumerated for length 1, random vectors up to the maximal length; "
         "'between the parents' = within the interval widened by 4 ulp of each end (rounding of two products and a "
         "sum), 'conserved' = sum of the children equals the sum of the parents up to 8 ulp of the larger magnitude"
         % LADDER_N,
-        "component model (TLC) bounded by populations <= %d, dimension <= %d; ArithmeticCrossover and DEMutation "
-        "are validated on recorded executions only (float predicates)" % (b["CompN"], b["CompD"]),
+        "component model (TLC) bounded by populations <= %d, dimension <= %d (ragged: lengths d, d + 1); "
+        "ArithmeticCrossover is modelled over tags with provenance-derived predicates; DEMutation is validated on "
+        "recorded executions only (float formula)" % (b["CompN"], b["CompD"]),
         "constructors: the table Ctors of the spec = the sweep of the harness = every pub fn of the components' "
         "inherent impl blocks in the source (compared at run time); identifiers Global, A, B",
-        "random component executions: populations 0..5, dimensions 1..8, rates in {0, 1, inside (0,1), outside [0,1]}, "
+        "random component executions: populations 0..5 (0..6 with duplicates), dimensions 1..8 (ragged: 2..9), rates in {0, 1, inside (0,1), outside [0,1]}, "
         "strengths in {0.125, 0.5, 2, 8, NaN}; real populations of ArithmeticCrossover from the box [-4,12) or from "
         "the table of extreme values",
         "InversionMutation/TranslocationMutation/SwapMutation exercised for dimension >= 2",
